@@ -200,7 +200,7 @@ func startGRPC(t *testing.T) *grpcHarness {
 		h.poolBorn = time.Now()
 		// the listener is started the way main.go starts a proto=grpc listener
 		h.proxyAddr = freeAddr()
-		opts := newGrpcProxy(cfg, nil, sh)
+		opts := flexAs[[]grpc.ServerOption](newGrpcProxy, cfg, sh)
 		go func() {
 			if err := proxy.ListenAndServeGRPC(config.Listen{Addr: h.proxyAddr, Proto: "grpc"}, opts, nil); err != nil {
 				fmt.Println("grpc listener:", err)
